@@ -3,9 +3,11 @@
 (* C17 - static and dynamic analysis agree on the API skeleton.            *)
 (*                                                                         *)
 (* Shape A built as a small state machine.  A *program* is the main module *)
-(* of a package  pkg/{__init__.py, other.py[, sub.py]}  (the main module   *)
-(* is pkg/__init__.py or pkg/sub.py; other.py is fixed: class OK, function *)
-(* og, value ov).  The program is built one statement per step; every step *)
+(* of a three-level package  pkg/{__init__, sub, other}.py,                *)
+(* pkg/mid/{__init__, other}.py, pkg/mid/deep/{__init__, leaf, other}.py   *)
+(* (the main module is one of the __init__ files, sub.py or leaf.py; every *)
+(* other.py is fixed: class OK, function og, value ov; relative imports    *)
+(* carry 1..3 dots).  The program is built one statement per step; every step *)
 (* advances three transcriptions at once:                                  *)
 (*                                                                         *)
 (*   Visit...   what _griffe.agents.visitor.Visitor does with the          *)
